@@ -26,6 +26,8 @@ LEVEL_TEXT = (
     "initial totals, and - for mass-action rates - the collapse identity at every vertex state of the substrate "
     "compounds plus uniform and asymmetric interior states (multilinearity makes vertices decide hetero-molecular "
     "reactions; interior states cover the quadratic homodimer)."
+    " Added: trimer networks with the repeated substrate in every argument position, the structure of every "
+    "mapped influx / efflux reaction, an unlabelled substrate with a labelled product. "
 )
 LEVEL_NOTE = "trusted: the base Model's RHS (C01); mass-action rates so that both sides are multilinear in the isotopomer vectors"
 RULE = (
